@@ -90,3 +90,29 @@ def job_control_of(obj):
         if isinstance(v, JobControl):
             return v
     raise RuntimeError('no JobControl found on {!r}'.format(obj))
+
+
+class Instrument:
+    """Wrap methods of a repo class in place for the duration of a run (the
+    originals are restored on exit).  wrappers: {method name: fn(original)
+    -> replacement}.  Used instead of re-binding a recording subclass so that
+    whatever the repo itself binds in its injection container stays in
+    effect."""
+    def __init__(self, cls, wrappers):
+        self.cls = cls
+        self.wrappers = wrappers
+        self.saved = {}
+
+    def __enter__(self):
+        for name, make in self.wrappers.items():
+            orig = self.cls.__dict__.get(name)
+            if orig is None:
+                continue
+            self.saved[name] = orig
+            setattr(self.cls, name, make(orig))
+        return self
+
+    def __exit__(self, *_):
+        for name, orig in self.saved.items():
+            setattr(self.cls, name, orig)
+        self.saved = {}
